@@ -60,14 +60,14 @@ pub fn run(ctx: &mut Ctx) {
     let mode = ctx.mode.clone().unwrap_or_else(|| "light".into());
     if mode == "actor" {
         let rt = act::runtime(2);
-        for case in ctx.cases(40, 3_000) {
+        for case in ctx.cases(300, 10_000) {
             let mut rng = ctx.rng(case);
             rt.block_on(actor_case(ctx, case, &mut rng));
             iroh_docs::verif::set_clock(0);
         }
     } else {
         let scratch = Scratch::new();
-        for case in ctx.cases(120, 20_000) {
+        for case in ctx.cases(800, 60_000) {
             let mut rng = ctx.rng(case);
             light_case(ctx, case, &mut rng, &scratch);
             iroh_docs::verif::set_clock(0);
